@@ -89,3 +89,51 @@ theorem minor_helpers_determined (I : MinorInst) (σ τ : NVar → Rat) (hσ : I
       simp [hc']
 
 end Aldy
+
+namespace Aldy
+open MinorInst
+
+theorem length_filter_filterMap {α β : Type} (f : α → Option β) (p : β → Bool) (q : α → Bool) (l : List α)
+    (h : ∀ x ∈ l, (match f x with | some y => p y | none => false) = q x) :
+    ((l.filterMap f).filter p).length = (l.filter q).length := by
+  induction l with
+  | nil => rfl
+  | cons x xs ih =>
+    have hx := h x (by simp)
+    have ih' := ih (fun y hy => h y (List.mem_cons_of_mem _ hy))
+    rw [List.filterMap_cons]
+    cases hf : f x with
+    | none =>
+      rw [hf] at hx
+      simp only at hx
+      rw [List.filter_cons, ← hx]
+      simpa using ih'
+    | some y =>
+      rw [hf] at hx
+      simp only at hx
+      rw [List.filter_cons, List.filter_cons, ← hx]
+      by_cases hp : p y = true
+      · simp only [hp, if_true, List.length_cons, ih']
+      · have hp' : p y = false := by simpa using hp
+        simp only [hp', Bool.false_eq_true, if_false, ih']
+
+/-- **readout_refines_major** CHAIN CONSISTENCY (C10): the minor alleles reported for a feasible
+point refine the major alleles of the major solution one to one - for every major allele of the
+solution, exactly as many reported copies carry its name as the major solution has copies of it -/
+theorem readout_refines_major (I : MinorInst) (σ : NVar → Rat) (h : I.build.Sat σ)
+    (mc : String × Nat) (hmc : mc ∈ I.majorSol) :
+    ((readOut I (actOf σ)).filter fun c => c.major == mc.1).length = mc.2 := by
+  have h1 := minor_one_per_copy I σ h mc hmc
+  unfold countOnesN at h1
+  rw [← h1, List.filter_map, List.length_map, List.filter_filter]
+  unfold readOut
+  apply length_filter_filterMap
+  intro cs _
+  by_cases ha : actOf σ (.A cs.2) = true
+  · have ha' : decide (σ (.A cs.2) = 1) = true := ha
+    simp [ha, ha', Function.comp_def]
+  · have ha0 : actOf σ (.A cs.2) = false := by simpa using ha
+    have ha' : decide (σ (.A cs.2) = 1) = false := ha0
+    simp [ha0, ha', Function.comp_def]
+
+end Aldy
